@@ -8,6 +8,7 @@
     src/rime/dict/user_db.h/.cc.  [g] is whatever the merger's storage held before
     construction.  Dictionaries are arbitrary (all proofs are inductions over entry lists). *)
 From Coq Require Import List NArith ZArith Bool.
+From Coq.Strings Require Byte.
 From RimeV Require Import Base.Bytes Udb.Value Udb.ValueProofs Udb.Merge Udb.MergeProofs Udb.Tsv Udb.TsvProofs
   Udb.Manager Udb.ManagerProofs Udb.Examples Udb.InitKinds Gen.Inits.
 Import ListNotations.
@@ -203,6 +204,26 @@ Theorem C17_import_example :
   imported_commits 2 (-7) = (-7)%Z /\ imported_commits 4 0 = 4%Z.
 Proof. exact ex_import_rule. Qed.
 Print Assumptions C17_import_example.
+
+(** Text export then import, line by line: a non-deleted entry whose code is tidy (no
+    surrounding isspace bytes besides the final blank) is written as text TAB code TAB commits
+    and parsed back to the same key with the same commit count (dee recomputed, tick 0). *)
+Theorem C17_export_import_line : forall O core text v,
+  tidy core -> text <> [] -> Forall (fun b => is_tab b = false) core -> Forall (fun b => is_tab b = false) text ->
+  (0 <= commits (unpack O v))%Z ->
+  let k := (core ++ [Byte.x20]) ++ TAB :: text in
+  let c := commits (unpack O v) in
+  table_formatter O k v = Some [text; core; print_Z c] /\
+  table_parser O [text; core; print_Z c] = Some (k, pack O {| commits := c; dee := d_of_commits O c; tick := 0 |}).
+Proof. exact export_import_line. Qed.
+Print Assumptions C17_export_import_line.
+
+Theorem C17_export_import_example :
+  tidy [Byte.x61] /\ (0 <= commits (unpack erased_ops ex_v_3_3))%Z /\
+  table_formatter erased_ops ex_k1 ex_v_3_3 = Some [[Byte.x41]; [Byte.x61]; [Byte.x33]] /\
+  option_map fst (table_parser erased_ops [[Byte.x41]; [Byte.x61]; [Byte.x33]]) = Some ex_k1.
+Proof. exact ex_export_line. Qed.
+Print Assumptions C17_export_import_example.
 
 (** ** histories *)
 
